@@ -431,6 +431,9 @@ def rule_r7(p, res):
         raise AnalysisError("C06.R7: only %d rebuilding from_vector methods that pass receiver state found (floor 2)" % m)
 
 
+# rules of sibling properties over code paths this property's statement also quantifies over (DESIGN.md section 3, shared rules)
+ALSO = ['C15.R3']
+
 RULES = [rule_r1, rule_r2, rule_r3, rule_r4, rule_r5, rule_r6, rule_r7]
 
 WITNESSES = [
